@@ -315,6 +315,7 @@ def c15_worker(res: Result, i: int, n: int) -> None:
         res.count("classes")
     if i == 0:
         _record_classes(res, ops, distinct)
+        _decoded_record_objects(res, ops)
         cross_process_pickles(res)
     res.coverage["operations_by_kind"] = ops
     res.coverage["distinct_nontrivial_instances"] = len(distinct)
@@ -373,6 +374,38 @@ def _record_classes(res: Result, ops: dict, distinct: set) -> None:
             check_instance(res, cls, inst, lambda kw=kw, cls=cls: cls(**kw), perturb, lambda x: repr(x), ops, "record class")
             res.count("record_class_instances")
             distinct.add(hashlib.sha256(repr(inst).encode()).digest()[:12])
+
+
+def _decoded_record_objects(res: Result, ops: dict) -> None:
+    """What kio.records.readers.read_batch hands out (batch, records, headers) must be value objects too."""
+    from kio.records.readers import read_batch
+
+    from .. import recref
+    from .records import gen_batch
+
+    for k in range(12 if res.tier == "quick" else 300):
+        rng = common.rng_for("C15", "decoded-batch", k)
+        b, _ = gen_batch(rng, False, 4)
+        if k % 3 == 0:
+            b["records"][0]["headers"] = [(b"hk", b"hv"), (b"k2", None)]
+        raw = recref.encode_batch(b)
+        try:
+            batch = read_batch(io.BytesIO(raw))
+        except Exception:  # noqa: BLE001
+            res.count("decoded_batch_read_failed_skipped")
+            continue
+        objs = [batch, *batch.records] + [h for r in batch.records for h in r.headers]
+        for o in objs[:12]:
+            def again(raw=raw, o=o, batch=batch):  # noqa: ANN001, ANN202
+                nb = read_batch(io.BytesIO(raw))
+                if o is batch:
+                    return nb
+                allo = [*batch.records] + [h for r in batch.records for h in r.headers]
+                alln = [*nb.records] + [h for r in nb.records for h in r.headers]
+                return alln[next(j for j, x in enumerate(allo) if x is o)]
+
+            check_instance(res, type(o), o, again, lambda: [], lambda x: repr(x), ops, "read from a record batch")
+            res.count("decoded_record_objects")
 
 
 def xproc_build(n_classes: int = 60) -> list:
